@@ -30,6 +30,8 @@ def _matches(a, value):
         test = np.asarray(value)
 
     elif np.iterable(value):
+        if len(value) == 0:
+            return np.zeros(np.shape(a), dtype=bool) # no value to match
         test = np.any([_matches(a, val) for val in value], axis=0)
 
     else:
